@@ -9,6 +9,10 @@ func isContext(t types.Type) bool {
 	}
 
 	o := named.Obj()
+	if o.Pkg() == nil {
+		// Universe types like "error" have no package.
+		return false
+	}
 	return o.Pkg().Path() == "context" && o.Name() == "Context"
 }
 
